@@ -79,6 +79,25 @@ def run(repo, rep, tier):
     from . import c11 as _c11
     L.borrow(repo, rep, "R18.2", "C11", _c11._algebra,
              ("delegates:split",))
+    un = repo.func("chameleon.parser.update_namespace")
+    stores = [src(a_.targets[0]) for a_ in ast.walk(un.node)
+              if isinstance(a_, ast.Assign) and isinstance(
+                  a_.targets[0], ast.Subscript)
+              and src(a_.targets[0].value) == "namespace"]
+    rep.check("namespace[None]" in stores and any(
+        "name[6:]" in s_ for s_ in stores), "R18.3", un.qualname, "a "
+        "default declaration (xmlns=...) and a prefixed one (xmlns:p=...) "
+        "are both entered in the element's prefix map",
+        construct="declarations-recorded", where=L.where(un),
+        detail=str(stores))
+    cd2 = repo.func("chameleon.zpt.program.convert_data_attributes")
+    skips = [n for n in ast.walk(cd2.node) if isinstance(n, ast.If)
+             and "'-'" in src(n.test) and "name" in src(n.test)]
+    rep.check(bool(skips) and all(
+        any(isinstance(x, ast.Continue) for x in n.body) for n in skips),
+        "R18.2", cd2.qualname, "a data attribute without a second hyphen "
+        "(data-role) is left alone: the loop moves on",
+        construct="data-name-without-prefix-skipped", where=L.where(cd2))
     L.state_rule(repo, rep)
 
 
